@@ -366,7 +366,9 @@ func runMessages(c *mon.C, ms []msg, side ref.Side, nplans int, payloadMarks ...
 		}
 		for pi := 0; pi < nplans; pi++ {
 			plan := ps[(c.I+ei*2+pi*3)%len(ps)]
-			o.Buf = []int{1, 5, 4096}[(c.I+pi+ei)%3]
+			// (the last size stands for "the consumer drains the message with io.Copy": whatever fast path -
+			// io.WriterTo, io.ReaderFrom of the destination - the copy ends up in, the verdict is the same)
+			o.Buf = []int{1, 5, 4096, drive.CopyBuf}[(c.I+pi+ei)%4]
 			if len(payloadMarks) > 0 {
 				o.Buf = 4096 // the transport boundary, not the caller's buffer, cuts the chunk
 			}
